@@ -2,7 +2,7 @@
    Deb822Wrap.format_field instantiated with C13's model RelWrap.ctl_rel (parse_relaxed +
    Relations::wrap_and_sort + to_string), on control files whose relationship fields are
    well-formed fields of C10's grammar in C13's safe domain. *)
-From V.model Require Import Base Deb822Lex Deb822Parse Grammar Lossy LossySpec Deb822Edit LiveDoc Deb822Wrap WrapSpec.
+From V.model Require Import Base Deb822Lex Deb822Parse Grammar Lossy LossySpec Deb822Edit LiveDoc Deb822Wrap WrapSpec ControlSpec.
 From V.model Require RelLex RelParse RelAcc RelGrammar RelWrap RelWrapSpec.
 From V.proofs Require Import BaseP GrammarLexP GrammarParseP GrammarAccP Deb822EditP LiveDocP LiveParaP Deb822WrapP Deb822WrapInstP.
 From V.proofs Require RelGrammarLexP RelWrapP RelWrapGrammarP.
@@ -154,3 +154,248 @@ Module RelShape.
         destruct (join _ _); [contradiction|exact Hh].
   Qed.
 End RelShape.
+
+(* ---------------------------------------------------------------- the relations branch, from C13 *)
+Lemma lead_char_fws lead : forallb lead_char lead = true -> RelGrammar.ws_ok lead = true.
+Proof. intros H. exact H. Qed.
+
+(* the relations formatter on a well-formed safe field, and on its own output behind blanks / line breaks *)
+Theorem real_rel_field rf : RelGrammar.wf_rfield true rf = true -> RelWrapSpec.field_safe rf = true ->
+  let o := text (RelWrapGrammarP.ws_tree rf) in
+  real_rel (RelGrammar.rrender rf) = Ok o /\
+  (forall lead, forallb lead_char lead = true -> real_rel (lead ++ o) = Ok o) /\
+  no_eol o = true /\ match o with [] => True | ch :: _ => is_indent ch = false end.
+Proof.
+  intros Hwf Hs o. destruct (RelWrapGrammarP.ctl_rel_wf rf Hwf Hs) as [E1 E2]. fold o in E1, E2.
+  destruct (RelWrapGrammarP.text_ws_tree true rf Hwf) as [_ Et]. fold o in Et.
+  pose proof (RelWrapGrammarP.canon_field_wf true rf Hwf) as Hc.
+  pose proof (RelWrapGrammarP.field_safe_canon true rf Hwf Hs) as Hsc.
+  split; [exact E1|]. split; [|rewrite Et; apply (RelShape.canon_single_line true rf Hwf)].
+  intros lead Hl. set (fc := RelWrapSpec.canon_field rf) in *.
+  set (fl := RelGrammar.mk_rfield lead (RelGrammar.f_first fc) (RelGrammar.f_rest fc)).
+  assert (Elead : RelGrammar.f_lead fc = []).
+  { unfold fc, RelWrapSpec.canon_field, RelWrapSpec.mk_field. destruct (_ ++ _); reflexivity. }
+  assert (Er : RelGrammar.rrender fl = lead ++ o).
+  { rewrite Et. unfold RelGrammar.rrender, fl. cbn [RelGrammar.f_lead RelGrammar.f_first RelGrammar.f_rest]. rewrite Elead. reflexivity. }
+  assert (Hwl : RelGrammar.wf_rfield true fl = true).
+  { unfold RelGrammar.wf_rfield in *. cbn [RelGrammar.f_lead RelGrammar.f_first RelGrammar.f_rest fl].
+    apply andb_true_iff in Hc. destruct Hc as [Hc1 Hc2]. apply andb_true_iff in Hc1. destruct Hc1 as [_ Hc1].
+    rewrite (lead_char_fws lead Hl), Hc1, Hc2. reflexivity. }
+  destruct (RelWrapGrammarP.ctl_rel_wf fl Hwl Hsc) as [F1 _]. rewrite Er in F1.
+  destruct (RelWrapGrammarP.ctl_rel_wf fc Hc Hsc) as [G1 _]. rewrite <- Et, E2 in G1. injection G1 as G1.
+  unfold real_rel. rewrite F1. f_equal. change (RelWrapGrammarP.ws_tree fl) with (RelWrapGrammarP.ws_tree fc). symmetry. exact G1.
+Qed.
+
+(* ---------------------------------------------------------------- format_field, branch by branch *)
+Definition is_rel_field (name : str) : bool := existsb (str_eqb name) (Lit.relation_fields true).
+
+Lemma real_ff_uploaders name v : str_eqb name Lit.k_Uploaders = true -> real_format_field name v = Ok (fmt_uploaders v).
+Proof. intros H. unfold real_format_field, format_field. rewrite H. reflexivity. Qed.
+Lemma real_ff_rel name v : str_eqb name Lit.k_Uploaders = false -> is_rel_field name = true -> real_format_field name v = real_rel v.
+Proof. intros H1 H2. unfold real_format_field, format_field. cbn [v_typo fixed]. unfold is_rel_field in H2. rewrite H1, H2. reflexivity. Qed.
+Lemma real_ff_other name v : str_eqb name Lit.k_Uploaders = false -> is_rel_field name = false -> real_format_field name v = Ok v.
+Proof. intros H1 H2. unfold real_format_field, format_field. cbn [v_typo fixed]. unfold is_rel_field in H2. rewrite H1, H2. reflexivity. Qed.
+
+Lemma ctl_total_ok name v o : real_format_field name v = Ok o -> ctl_total name v = o.
+Proof. intros H. unfold ctl_total. rewrite H. reflexivity. Qed.
+
+(* ---------------------------------------------------------------- formatters that agree where they are used *)
+Lemma res_map_ext_in {A B} (f g : A -> res B) l : (forall x, In x l -> f x = g x) -> res_map f l = res_map g l.
+Proof.
+  induction l as [|x r IH]; intros H; [reflexivity|]. cbn [res_map]. rewrite (H x (or_introl eq_refl)), IH; [reflexivity|].
+  intros y Hy. apply H. right. exact Hy.
+Qed.
+
+Lemma entry_ws_agree ind iel mll (F : str -> str -> res str) g f :
+  F (f_name f) (field_input f) = Ok (g (f_name f) (field_input f)) ->
+  entry_ws fixed ind iel mll (Some F) (field_tree f) = entry_ws fixed ind iel mll (Some (pure_fmt g)) (field_tree f).
+Proof.
+  intros H. unfold entry_ws. rewrite ews_scan_field. cbn [bind]. destruct (_ =? 0)%N; [reflexivity|].
+  rewrite strip_trailing_field. unfold entry_tokens. rewrite no_err_comment_triple, entry_key_field, token_text_triple.
+  fold (field_input f). rewrite H. reflexivity.
+Qed.
+
+Lemma para_ws_agree c esort (F : str -> str -> res str) g its :
+  (forall f, In (IField f) its -> F (f_name f) (field_input f) = Ok (g (f_name f) (field_input f))) ->
+  para_ws fixed (c_ind c) (c_iel c) (c_mll c) esort (Some F) (lblock_tree (LPara its))
+  = para_ws fixed (c_ind c) (c_iel c) (c_mll c) esort (Some (pure_fmt g)) (lblock_tree (LPara its)).
+Proof.
+  intros H. unfold para_ws. cbn [lblock_tree children]. change (@nil tree) with (pre_elems []) at 1 3. rewrite !pws_scan_items. cbn [bind app].
+  pose proof (group_items_In its []) as HIn. destruct (group_items its []) as [gs tr]. cbn [fst snd] in *.
+  set (L := sort_opt (option_map on_snd esort) (map group_tree gs)).
+  assert (HL : forall pe, In pe L -> exists g0, In g0 gs /\ pe = group_tree g0).
+  { intros pe Hpe. apply sort_opt_In in Hpe. apply in_map_iff in Hpe. destruct Hpe as (g0 & <- & Hg). exists g0. split; [exact Hg|reflexivity]. }
+  rewrite (res_map_ext_in _ (fun pe : list tree * tree =>
+             bind (res_map emit_token (fst pe)) (fun pre => bind (entry_ws fixed (c_ind c) (c_iel c) (c_mll c) (Some (pure_fmt g)) (snd pe)) (fun e' => Ok (pre ++ [e'])))) L).
+  - reflexivity.
+  - intros pe Hpe. destruct (HL pe Hpe) as (g0 & Hg0 & ->). unfold group_tree. cbn [fst snd].
+    destruct (res_map emit_token (pre_elems (fst g0))); try reflexivity. cbn [bind].
+    rewrite (entry_ws_agree _ _ _ F g (snd g0) (H (snd g0) (HIn g0 Hg0))). reflexivity.
+Qed.
+
+Lemma dws_emit_agree (p1 p2 : tree -> res tree) ps : (forall pre p, In (pre, p) ps -> p1 p = p2 p) -> forall first,
+  dws_emit fixed (Some p1) first ps = dws_emit fixed (Some p2) first ps.
+Proof.
+  induction ps as [|[pre p] r IH]; intros H first; [reflexivity|]. cbn [dws_emit]. rewrite (H pre p (or_introl eq_refl)).
+  destruct (res_map (emit_current fixed) pre); try reflexivity. cbn [bind]. destruct (p2 p); try reflexivity. cbn [bind].
+  rewrite (IH (fun pre' p' Hin => H pre' p' (or_intror Hin)) false). reflexivity.
+Qed.
+
+Lemma doc_ws_agree psort (p1 p2 : tree -> res tree) l :
+  (forall its, In (LPara its) l -> p1 (lblock_tree (LPara its)) = p2 (lblock_tree (LPara its))) ->
+  doc_ws fixed psort (Some p1) (ltree_of l) = doc_ws fixed psort (Some p2) (ltree_of l).
+Proof.
+  intros H. unfold doc_ws, ltree_of. cbn [children]. change (@nil tree) with (map comment_node []) at 1 2. rewrite !dws_scan_blocks. cbn [bind app].
+  pose proof (group_blocks_In l []) as HIn. destruct (group_blocks l []) as [gs tr]. cbn [fst snd] in *.
+  rewrite (dws_emit_agree p1 p2); [reflexivity|].
+  intros pre p Hin. apply sort_opt_In in Hin. apply in_map_iff in Hin. destruct Hin as (g0 & E & Hg). unfold dgroup_tree in E. injection E as _ <-.
+  apply H. apply HIn. exact Hg.
+Qed.
+
+(* ---------------------------------------------------------------- stability of one field, from local facts *)
+Theorem absorbing_stable_local c g f :
+  (forall lead, forallb lead_char lead = true -> g (f_name f) (lead ++ g (f_name f) (field_input f)) = g (f_name f) (field_input f)) ->
+  match g (f_name f) (field_input f) with [] => True | ch :: _ => lead_char ch = false end ->
+  conts_nonempty f = true -> fmt_shaped_on (Some g) f = true ->
+  field_stable c (Some g) f /\ fmt_lexes (Some g) (a_ws_field c (Some g) f).
+Proof.
+  intros Ha Hn Hcn Hs. pose proof (shaped_lexes (Some g) f Hs) as Hl.
+  unfold field_input in Ha.
+  set (v := value_text (field_ws0 f) (f_first f) (map snd (f_cont f))) in *.
+  set (o := g (f_name f) v) in *.
+  assert (Hkey : g (f_name f) (value_text (field_ws0 (a_ws_field c (Some g) f)) (f_first (a_ws_field c (Some g) f))
+                                   (map snd (f_cont (a_ws_field c (Some g) f)))) = o).
+  { unfold a_ws_field. fold v. fold o. unfold field_input in Hn. fold v in Hn. fold o in Hn.
+    cbn [fmt_lexes] in Hl. cbv zeta in Hl. fold v in Hl. fold o in Hl.
+    destruct (parse_value o) as [[w first] conts] eqn:Ep. destruct Hl as [_ Hne].
+    destruct (parse_value_no_lead o w first conts Hn Ep) as [-> Hfirst].
+    pose proof (parse_value_text o [] first conts Ep) as Ho. unfold value_text in Ho. cbn [app] in Ho.
+    unfold rebuild_field. destruct (fits c (f_name f) [] first && is_nil conts) eqn:Efit.
+    - apply andb_true_iff in Efit. destruct Efit as [_ En]. destruct conts; [|discriminate].
+      cbn [f_first f_cont f_ws map flat_map] in *. rewrite app_nil_r in Ho.
+      replace (field_ws0 (mk_field (f_name f) [] first [] true)) with (@nil N) by (unfold field_ws0; cbn; destruct first; reflexivity).
+      unfold value_text. cbn [app flat_map]. rewrite app_nil_r, <- Ho. apply (Ha []). reflexivity.
+    - destruct (value_lines first conts) as [|l1 rest] eqn:El.
+      + assert (first = [] /\ conts = []) as [-> ->] by (unfold value_lines in El; destruct first; [split; [reflexivity|exact El]|discriminate]).
+        cbn [flat_map app] in Ho. unfold field_ws0, value_text. cbn [f_first f_cont f_ws map flat_map app].
+        rewrite <- Ho. apply (Ha []). reflexivity.
+      + assert (Hl1 : first = l1 /\ conts = rest).
+        { unfold value_lines in El. destruct first as [|b first']; [|injection El as <- <-; split; reflexivity].
+          destruct (Hfirst eq_refl) as [-> _]. discriminate. }
+        destruct Hl1 as [-> ->].
+        assert (Hl1ne : l1 <> []) by (apply (value_lines_head_nonempty l1 rest l1 rest Hne El)).
+        destruct (c_iel c && negb (is_nil rest) && negb (starts_with_hash l1)).
+        * unfold field_ws0, value_text. cbn [f_first f_cont f_ws]. rewrite map_snd_indent.
+          replace (match indent_lines (width c (f_name f)) (l1 :: rest) with [] => [] | _ :: _ => @nil N end) with (@nil N) by reflexivity.
+          cbn [app flat_map]. change (LF :: l1 ++ flat_map (fun t : str => LF :: t) rest) with ([LF] ++ (l1 ++ flat_map (fun t : str => LF :: t) rest)).
+          rewrite <- Ho. apply (Ha [LF]). reflexivity.
+        * unfold value_text. cbn [f_first f_cont]. rewrite map_snd_indent.
+          replace (field_ws0 (mk_field (f_name f) [32%N] l1 (indent_lines (width c (f_name f)) rest) true)) with [32%N]
+            by (unfold field_ws0; cbn [f_first f_cont f_ws]; destruct l1; [contradiction|reflexivity]).
+          rewrite <- Ho. apply (Ha [32%N]). reflexivity. }
+  assert (Hname : f_name (a_ws_field c (Some g) f) = f_name f).
+  { unfold a_ws_field. destruct (parse_value _) as [[w first] conts]. apply rebuild_field_name. }
+  split; [split|].
+  - unfold a_ws_field at 1. rewrite Hname, Hkey. unfold a_ws_field. fold v. fold o. reflexivity.
+  - apply a_ws_field_pair; [exact Hcn|exact Hl].
+  - cbn [fmt_lexes]. cbv zeta. rewrite Hname, Hkey. exact Hl.
+Qed.
+
+(* ---------------------------------------------------------------- one field of a control file *)
+Lemma parse_single_line o : no_eol o = true -> match o with [] => True | ch :: _ => is_indent ch = false end ->
+  parse_value o = ([], o, []).
+Proof.
+  intros Hn Hh. unfold parse_value.
+  assert (Es : span is_indent o = ([], o)) by (destruct o as [|ch r]; [reflexivity|]; cbn [span]; rewrite Hh; reflexivity).
+  rewrite Es. pose proof (split_lf_lines [] o Hn eq_refl) as E. cbn [flat_map] in E. rewrite app_nil_r in E. rewrite E. reflexivity.
+Qed.
+
+Lemma field_input_single c name o : exists lead, forallb lead_char lead = true /\
+  field_input (rebuild_field c name [] o []) = lead ++ o.
+Proof.
+  unfold rebuild_field. destruct (fits c name [] o && is_nil []).
+  - exists []. split; [reflexivity|]. unfold field_input, field_ws0, value_text. cbn [f_first f_cont f_ws map flat_map app].
+    destruct o; rewrite ?app_nil_r; reflexivity.
+  - destruct o as [|ch r].
+    + exists []. split; reflexivity.
+    + cbn [value_lines is_nil negb andb]. rewrite andb_false_r. exists [32%N]. split; [reflexivity|].
+      unfold field_input, field_ws0, value_text. cbn [f_first f_cont f_ws indent_lines map flat_map app]. rewrite app_nil_r. reflexivity.
+Qed.
+
+(* a formatter that leaves the fields of this name alone *)
+Lemma id_at_name c g f m : (forall v, g (f_name f) v = v) -> wf_field f m = true ->
+  a_ws_field c (Some g) f = a_ws_field c None f /\ fmt_shaped_on (Some g) f = true /\ a_value (Some g) f = field_value f.
+Proof.
+  intros Hid Hwf. destruct (wf_field_parts f m Hwf) as (_ & Hw & Hf & Hc).
+  pose proof (parse_value_of_text (field_ws0 f) (f_first f) (map snd (f_cont f)) (ws_ok_field_ws0 f Hw) Hf Hc) as E.
+  unfold a_ws_field, fmt_shaped_on, shaped, a_value. rewrite Hid, E. split; [reflexivity|]. split; [|symmetry; apply field_value_lines].
+  rewrite Hf, Hc. cbn [andb]. unfold field_ws0. destruct (f_first f); [|reflexivity]. destruct (f_cont f); reflexivity.
+Qed.
+
+Lemma id_at_name_stable c g f m : ind_ok c = true -> (forall v, g (f_name f) v = v) -> wf_field f m = true ->
+  field_stable c (Some g) f /\ fmt_lexes (Some g) (a_ws_field c (Some g) f).
+Proof.
+  intros Hi Hid Hwf. destruct (id_at_name c g f m Hid Hwf) as (E & Hs & _).
+  pose proof (wf_a_ws_field c None f m true Hi Hwf eq_refl) as HwF.
+  assert (HnF : f_name (a_ws_field c None f) = f_name f) by apply rebuild_field_name.
+  assert (HidF : forall v, g (f_name (a_ws_field c None f)) v = v) by (intros v; rewrite HnF; apply Hid).
+  destruct (id_at_name c g (a_ws_field c None f) true HidF HwF) as (EF & HsF & _).
+  destruct (wf_field_ok None f m Hwf eq_refl) as (_ & Hc & _).
+  split; [split|].
+  - rewrite E, EF. apply a_ws_field_idem_nofmt. exact Hc.
+  - apply a_ws_field_pair; [exact Hc|apply shaped_lexes; exact Hs].
+  - rewrite E. apply shaped_lexes. exact HsF.
+Qed.
+
+Definition field_facts (c : wcfg) (f : field) : Prop :=
+  real_format_field (f_name f) (field_input f) = Ok (ctl_total (f_name f) (field_input f)) /\
+  fmt_shaped_on (Some ctl_total) f = true /\
+  field_stable c (Some ctl_total) f /\ fmt_lexes (Some ctl_total) (a_ws_field c (Some ctl_total) f) /\
+  real_format_field (f_name f) (field_input (a_ws_field c (Some ctl_total) f))
+    = Ok (ctl_total (f_name f) (field_input (a_ws_field c (Some ctl_total) f))) /\
+  (str_eqb (f_name f) Lit.k_Uploaders = false -> is_rel_field (f_name f) = false -> a_value (Some ctl_total) f = field_value f).
+
+Theorem ctl_field_facts c f m : ind_ok c = true -> wf_field f m = true -> ctl_field_ok f -> field_facts c f.
+Proof.
+  intros Hi Hwf Hok. unfold ctl_field_ok in Hok. unfold field_facts.
+  destruct (wf_field_ok None f m Hwf eq_refl) as (_ & Hcn & _).
+  destruct (str_eqb (f_name f) Lit.k_Uploaders) eqn:Eu.
+  - (* Uploaders *)
+    assert (Hg : forall v, ctl_total (f_name f) v = fmt_uploaders v) by (intros v; apply ctl_total_ok, real_ff_uploaders, Eu).
+    assert (Hs : fmt_shaped_on (Some ctl_total) f = true) by (cbn [fmt_shaped_on]; fold (field_input f); rewrite Hg; exact Hok).
+    split; [rewrite Hg; apply real_ff_uploaders, Eu|]. split; [exact Hs|].
+    assert (Hst : field_stable c (Some ctl_total) f /\ fmt_lexes (Some ctl_total) (a_ws_field c (Some ctl_total) f)).
+    { apply absorbing_stable_local; [| |exact Hcn|exact Hs].
+      - intros lead Hl. rewrite !Hg. apply (uploaders_absorbing [] (field_input f) lead Hl).
+      - rewrite Hg. apply (uploaders_no_lead [] (field_input f)). }
+    destruct Hst as [H1 H2]. split; [exact H1|]. split; [exact H2|]. split; [rewrite Hg; apply real_ff_uploaders, Eu|discriminate].
+  - destruct (is_rel_field (f_name f)) eqn:Er; unfold is_rel_field in Er; rewrite Er in Hok.
+    + (* a relationship field *)
+      destruct Hok as (rf & Hrw & Hrs & Hin).
+      destruct (real_rel_field rf Hrw Hrs) as (R1 & R2 & Rn & Rh). set (o := text (RelWrapGrammarP.ws_tree rf)) in *.
+      assert (Hff : forall v, real_format_field (f_name f) v = real_rel v) by (intros v; apply real_ff_rel; [exact Eu|exact Er]).
+      assert (Ho : ctl_total (f_name f) (field_input f) = o) by (apply ctl_total_ok; rewrite Hff, Hin; exact R1).
+      assert (Hlead : forall lead, forallb lead_char lead = true -> ctl_total (f_name f) (lead ++ o) = o)
+        by (intros lead Hl; apply ctl_total_ok; rewrite Hff; apply R2, Hl).
+      assert (Hp : parse_value o = ([], o, [])) by (apply parse_single_line; assumption).
+      assert (Hs : fmt_shaped_on (Some ctl_total) f = true).
+      { cbn [fmt_shaped_on]. fold (field_input f). rewrite Ho. unfold shaped. rewrite Hp. unfold first_ok. rewrite Rn. cbn [andb forallb].
+        destruct o as [|ch r]; [reflexivity|]. rewrite Rh. reflexivity. }
+      split; [rewrite Ho, Hff, Hin; exact R1|]. split; [exact Hs|].
+      assert (Hst : field_stable c (Some ctl_total) f /\ fmt_lexes (Some ctl_total) (a_ws_field c (Some ctl_total) f)).
+      { apply absorbing_stable_local; [| |exact Hcn|exact Hs].
+        - intros lead Hl. rewrite Ho. apply Hlead, Hl.
+        - rewrite Ho. destruct o as [|ch r]; [exact I|]. unfold lead_char. rewrite Rh. cbn [orb].
+          unfold no_eol in Rn. cbn [forallb] in Rn. apply andb_true_iff in Rn. destruct Rn as [Rn _]. apply negb_true_iff in Rn.
+          unfold is_newline in Rn. apply orb_false_iff in Rn. apply Rn. }
+      destruct Hst as [H1 H2]. split; [exact H1|]. split; [exact H2|]. split; [|intros _ Hx; discriminate].
+      assert (EF : a_ws_field c (Some ctl_total) f = rebuild_field c (f_name f) [] o []).
+      { unfold a_ws_field. fold (field_input f). rewrite Ho, Hp. reflexivity. }
+      rewrite EF. destruct (field_input_single c (f_name f) o) as (lead & Hl & E). rewrite E, (Hlead lead Hl), Hff. apply R2, Hl.
+    + (* any other field: left as it is *)
+      assert (Hg : forall v, ctl_total (f_name f) v = v) by (intros v; apply ctl_total_ok, real_ff_other; [exact Eu|exact Er]).
+      destruct (id_at_name c ctl_total f m Hg Hwf) as (E & Hs & Hv).
+      destruct (id_at_name_stable c ctl_total f m Hi Hg Hwf) as [H1 H2].
+      split; [rewrite Hg; apply real_ff_other; [exact Eu|exact Er]|]. split; [exact Hs|]. split; [exact H1|]. split; [exact H2|].
+      split; [rewrite Hg; apply real_ff_other; [exact Eu|exact Er]|intros _ _; exact Hv].
+Qed.
